@@ -5,6 +5,7 @@ chosen thread schedules by the deterministic scheduler (harness/sched/shim.py); 
 lean/MlModel/Model/Queue.lean; theorems: lean/MlModel/Properties/C04.lean.
 """
 from harness import lib_queue as lq
+from harness import lib_queue_backends as lqb
 
 PID = 'C04'
 TITLE = 'Iterator queues deliver every element exactly once and always terminate'
@@ -41,6 +42,12 @@ def gen_cases(ctx):
     ctx.count('cap', case['cap'])
     ctx.count('threads', f'{nprod}p{ncons}c')
     yield case
+  # round 10: the same family over every BACKEND the constructors accept, bounded and unbounded, producers ahead
+  for k in range(12 if ctx.quick else 300):
+    for b, bd in lqb.sync_arm_list():
+      case = lqb.gen_backend_case(rng, b, bd, 3 if ctx.quick else 5)
+      ctx.count('backend_cases', lqb.arm(case))
+      yield case
 
 
 def _cfg(cap, threads, timeout=False):
@@ -58,6 +65,11 @@ GUIDED_CONFIGS = [
     _cfg(0, [_P([0, 1, 2]), _B(1024, False), _G]),
     _cfg(2, [_P([0, 1]), _P([100, 101], 901), _B(2, False), _B(3, True)]),
     _cfg(1, [_P([]), _G]),
+    # round 10: the same LTS walks replayed on the other backends (the LTS is backend-independent)
+    dict(_cfg(1, [_P([0, 1, 2]), _P([100], 901), _G, _B(2, True)]), backend='asyncio.Queue'),
+    dict(_cfg(2, [_P([0, 1, 2, 3]), _B(2, False), _G]), backend='AsyncIteratorQueue', max_enq=0),
+    dict(_cfg(0, [_P([0, 1]), _P([100], 901), _B(3, True), _G]), backend='queue.SimpleQueue'),
+    dict(_cfg(1, [_P([0, 1, 2]), _G, _B(2, False)]), backend='duck_async'),
 ]
 # Program points of the LTS that no C04 configuration can execute, and why (they are C05's).
 _NO_TIMEOUT = 'no timeout configured: a parked wait has no timeout alternative'
@@ -75,16 +87,32 @@ def extra(ctx):
   """Model-guided stage: schedules chosen by random walks on the Lean LTS so that together they execute every
   program point reachable in the C04 setting, replayed on the real code and compared step by step."""
   lq.model_guided(ctx, GUIDED_CONFIGS, ctx.seed, unreachable=GUIDED_UNREACHABLE, oracle=oracle)
+  lqb.enforce(ctx)
 
 
 run_impl = lq.run_impl
 model_requests_obs = lq.model_requests_obs
 model_requests = None
 model_obs = lq.model_obs
-compare = lq.compare
+
+
+def compare(obs, m):
+  d = lq.compare(obs, m)
+  if d is not None:
+    lqb.VERDICT['disagreement'] += 1
+  if isinstance(obs, dict) and obs.get('oracle_new_failure'):
+    lqb.VERDICT['oracle failure outside the known input classes'] += 1
+  return d
 
 
 def oracle(case, obs):
+  what = _oracle(case, obs)
+  if what is not None and finding(case, what) is None:
+    obs['oracle_new_failure'] = True      # travels to the main process with the observation (see lqb.enforce)
+  return what
+
+
+def _oracle(case, obs):
   if obs['outcome'] != 'done':
     return (f"{obs['outcome']}: threads blocked forever {obs['blocked']} after {len(obs['choices'])} steps "
             f'(no failure, no stop request)')
@@ -109,6 +137,7 @@ def oracle(case, obs):
 
 
 def nontrivial(case, obs):
+  lqb.note_run(case, obs)
   ch = [c[0] for c in obs['choices']]
   return sum(1 for a, b in zip(ch, ch[1:]) if a != b) >= 10
 
